@@ -23,3 +23,27 @@ Theorem C14_fresh_context_each_call : forall f include order gs,
   run_filter f include order gs = fold_left (visit f include) order (gs, []).
 Proof. exact run_filter_fresh. Qed.
 Print Assumptions C14_fresh_context_each_call.
+
+(* ---- per-master filter objects merged into one interpolatable filter (Filters/FilterMerge.v): which glyphs a filter handed to the interpolatable pre-processors touches ---- *)
+From U2F Require Import Filters.FilterMerge Filters.FilterMergeProofs.
+
+Theorem C14_merged_filter_includes_the_union : forall h fs m g,
+  try_merge h fs = Some m ->
+  (merged_includes m g = true <-> exists f, In (Some f) fs /\ includes (pf_inc f) g = true).
+Proof. exact merged_include_is_the_union. Qed.
+Print Assumptions C14_merged_filter_includes_the_union.
+
+Theorem C14_glyph_excluded_by_every_master_is_left_alone : forall h fs m g,
+  try_merge h fs = Some m -> (forall f, In (Some f) fs -> includes (pf_inc f) g = false) -> merged_includes m g = false.
+Proof. exact excluded_everywhere_is_left_alone. Qed.
+Print Assumptions C14_glyph_excluded_by_every_master_is_left_alone.
+
+Theorem C14_master_without_the_filter_is_immaterial : forall h a b, try_merge h (a ++ None :: b) = try_merge h (a ++ b).
+Proof. exact missing_entry_anywhere. Qed.
+Print Assumptions C14_master_without_the_filter_is_immaterial.
+
+Theorem C14_merged_only_if_same_filter : forall h fs m f1 f2,
+  try_merge h fs = Some m -> In (Some f1) fs -> In (Some f2) fs ->
+  pf_class f1 = pf_class f2 /\ pf_options f1 = pf_options f2 /\ pf_pre f1 = pf_pre f2.
+Proof. exact merged_only_if_same. Qed.
+Print Assumptions C14_merged_only_if_same_filter.
